@@ -77,10 +77,6 @@ Section AutoName.
           end
       end.
 
-  (* put back a list of children (total: arity mismatch leaves the node as it is) *)
-  Definition rebuild (t : item) (cs : list item) : item :=
-    match set_children t cs with Some t' => t' | None => t end.
-
   (* visit of one node: returns the renamed node, the new global name, and the mapping entries
      in insertion order *)
   Fixpoint an_go (t : item) (pre : path) (st : option str) : option nres :=
